@@ -89,6 +89,8 @@ inductive Typed (Φ : FEnv) (G : Env) : Expr F → Ty → Prop
   | logic (op : Op) (l r : Expr F) : isLogic op = true → Typed Φ G l .bool → Typed Φ G r .bool → Typed Φ G (.binary op l r) .bool
   | eq (op : Op) (l r : Expr F) (t : Ty) : isEq op = true → Typed Φ G l t → Typed Φ G r t → Typed Φ G (.binary op l r) .bool
   | arrCat (l r : Expr F) (s : Ty) : Typed Φ G l (.arr s) → Typed Φ G r (.arr s) → Typed Φ G (.binary .plus l r) (.arr s)
+  /-- array repetition `array * n` -/
+  | arrRep (l r : Expr F) (s : Ty) : Typed Φ G l (.arr s) → Typed Φ G r .num → Typed Φ G (.binary .asterisk l r) (.arr s)
   | idxArr (l i : Expr F) (s : Ty) : Typed Φ G l (.arr s) → Typed Φ G i .num → Typed Φ G (.index l i) s
   | idxStr (l i : Expr F) : Typed Φ G l .str → Typed Φ G i .num → Typed Φ G (.index l i) .str
   | idxMap (l i : Expr F) (s : Ty) : Typed Φ G l (.map s) → Typed Φ G i .str → Typed Φ G (.index l i) s
